@@ -293,6 +293,30 @@ class BocWireWorld(World):
                 if d:
                     self._fail(ctx, enc_op, fault, 'roots', klass, 'root %d differs from the denoted cell: %s' % (i, d))
                     return
+            # the receiver works on what it got (empties the list while walking the DAG, or turns it round) and then reads the same
+            # bag again - through Cell.from_boc, and through one parser object asked twice: still exactly the denoted roots
+            want = [c.hash for c in res]
+            if not isinstance(res, list):
+                return
+            (res.clear if len(data) % 2 else res.reverse)()
+            ctx.probe('receiver-edits-the-root-list-then-reads-the-bag-again')
+
+            def twice():
+                from pytoniq_core.boc.deserialize import Boc
+                b = Boc(damaged)
+                first = b.deserialize()
+                got1 = [c.hash for c in first]
+                (first.clear if len(data) % 2 else first.reverse)()
+                return got1, [c.hash for c in b.deserialize()]
+            ok2, res2 = call(Cell.from_boc, damaged)
+            ok3, pair = call(twice)
+            bad = None
+            if not ok2 or [c.hash for c in res2] != want:
+                bad = 'Cell.from_boc of the same bytes ' + ('raised %r' % (res2,) if not ok2 else 'returned other roots')
+            elif ok3 and pair[0] == want and pair[1] != want:
+                bad = 'the second deserialize() of one Boc object returned other roots'
+            if bad:
+                self._fail(ctx, enc_op, fault, 'roots-on-second-read', klass, 'after the receiver edited the list of roots it had been given, ' + bad)
             return
         # damaged input: is it really invalid?
         try:
@@ -540,7 +564,7 @@ class AddrWireWorld(World):
                 ctx.op(o)
                 self._subst(ctx, a, rop, text, o['pos'], o['char'], record=False, times=o.get('times', 1))
 
-    ORIGINS = ['tuple', 'raw', 'copy', 'cell', 'anycast-set', 'anycast-cell']
+    ORIGINS = ['tuple', 'raw', 'copy', 'cell', 'anycast-set', 'anycast-cell', 'tl-dict-edited', 'reassigned']
 
     def _mk(self, aop):
         """The address object under test, obtained by the route aop['origin'] names ('equal addresses hash equally' is
@@ -555,6 +579,23 @@ class AddrWireWorld(World):
                 return Address('%d:%s' % (wc, acc.hex()))
             if origin == 'copy':
                 return Address(Address((wc, acc)))
+            if origin == 'tl-dict-edited':
+                # the caller asked for the TL account-id dict and edited ITS dict (to build a request for another account)
+                a = Address((wc, acc))
+                a.to_str(False)
+                d = a.to_tl_account_id()
+                if isinstance(d, dict):
+                    for key in list(d):
+                        d[key] = -1 if isinstance(d[key], int) else 'ab' * 32
+                    d['@type'] = 'liteServer.accountId'
+                return a
+            if origin == 'reassigned':
+                # one address object used as a cursor: it held another address, was rendered in every form, then its (plain) fields
+                # were assigned; what it renders to now is the address it holds now
+                a = Address(((wc + 1) if wc < 127 else 0, bytes(b ^ 0x5a for b in acc)))
+                a.to_str(False), a.to_str(True, True, True, False), a.to_str(True, False, False, True), a.to_tl_account_id(), hash(a)
+                a.wc, a.hash_part = wc, acc
+                return a
             a = Address((wc, acc))
             if origin.startswith('anycast'):
                 depth = 1 + acc[0] % 30
@@ -614,6 +655,17 @@ class AddrWireWorld(World):
             problems.append('equal addresses hash differently')
         if problems:
             self._fail(ctx, [aop, rop], 'roundtrip', 'Address(str)', klass, '; '.join(problems))
+            return None
+        # the caller edits the object it received (fields are plain attributes); the same text parsed again still denotes the address
+        try:
+            back.wc, back.hash_part = (wc + 1 if wc < 127 else 0), bytes(32)
+            back.is_bounceable, back.is_test_only = not back.is_bounceable, not back.is_test_only
+        except Exception:
+            return text
+        ok, again = call(Address, text)
+        ctx.evaluated(1)
+        if not ok or again.wc != wc or again.hash_part != acc or (v != 'raw' and (bool(again.is_bounceable), bool(again.is_test_only)) != VARIANTS[v][:2]):
+            self._fail(ctx, [aop, rop], 'roundtrip', 'Address(str)-again', klass, 'after the caller edited the address object it had parsed, the same text parsed to %r' % (again,))
             return None
         return text
 
